@@ -278,6 +278,9 @@ def job_gen_run_any(args):
         case["imm"] = [True, False]
     if rng.random() < 0.15:
         case["start_by_event"] = True
+    if rng.random() < 0.2:
+        # completions of other outstanding services reported from inside service-FINISHED notifications (finding K19)
+        case["imm_sf"] = [rng.random() < 0.5 for _ in range(rng.randint(1, 5))]
     r = job_run(case)
     r["viol"] = []
     r["net_only"] = True
@@ -686,10 +689,8 @@ def job_variants(case):
             # a last line that is a comment naming a file (a generated program says where it came from)
             c3 = copy.deepcopy(case)
             c3["text"] = case["text"].rstrip("\n") + "\n# generated from templates/painting_line_2.pfdl" + ("\n" if case.get("seed", 0) % 2 else "")
-            res3, _ = sc.run_impl(copy.deepcopy(c3))
-            res0, _ = sc.run_impl(copy.deepcopy(case))
-            if res3.get("valid") and [c["exc"] for c in res3["calls"]] == [c["exc"] for c in res0["calls"]] and len(res3["calls"]) == len(res0["calls"]):
-                case = c3
+            # no fall-back here: text and file of this very text must behave alike, whatever they do
+            case = c3
         for name, delta in variants:
             c2 = copy.deepcopy(case)
             for k, v in delta.items():
